@@ -108,6 +108,11 @@ def all_cells():
         for bi in (0, 3):
             for ph in (1, 2, 3):
                 cells.append((si, ["h", ph], bi, 0))
+    # an earlier command on the same connection was refused with NO (NONEXISTENT) (stale errcode / errmsg), then one fault
+    pl = placements()
+    for si in range(len(st)):
+        for pi in range(2, len(pl)):
+            cells.append((si, ["e", pi], 0, 0))
     # names that have a twin differing only by normalisation / case / quoting (no fault, and a fault at each step)
     for si in range(len(st)):
         for nv in range(1, len(NAME_VARIANTS)):
@@ -209,6 +214,9 @@ def run(ch, config, res):
         elif isinstance(pi, list) and pi[0] == "h":
             placement = None
             prehist = pi[1]
+        elif isinstance(pi, list) and pi[0] == "e":
+            placement = pl_all[pi[1]]
+            prehist = 4
         elif isinstance(pi, list) and pi[0] == "n":
             names = pi[1]
             placement = None if pi[2] is None else tuple(pi[2])
@@ -225,7 +233,7 @@ def run(ch, config, res):
                 dp = double_placements()
                 pi = 1000 + wl.int("dplacement", len(dp))
                 placement = dp[pi - 1000]
-            prehist = wl.int("prehist", 4)
+            prehist = wl.int("prehist", 5)
             names = wl.weighted("names", [3] + [1] * (len(NAME_VARIANTS) - 1))
             body = gen.body(wl, "body", hostile=False) if wl.flag("plainbody", 1, 2) else BODIES[wl.int("body", len(BODIES))]
     double = placement is not None and placement[0] == "double"
@@ -284,12 +292,17 @@ def run(ch, config, res):
             if prehist:
                 # a short history on the same client: whatever it has seen before must not leak into the rename
                 with ch.scope("prehist"):
-                    world.call(client, "listscripts")
-                    if prehist >= 2:
+                    if prehist == 4:
+                        world.call(client, "getscript", "no-such-script")
+                        world.call(client, "deletescript", "no-such-script")
+                        world.call(client, "havespace", "x", 1)
+                    else:
+                        world.call(client, "listscripts")
+                    if 2 <= prehist <= 3:
                         others = [k for k in srv.scripts if k != srv.active]
                         tgt = others[0].decode() if others else ""
                         world.call(client, "setactive", tgt)
-                    if prehist >= 3:
+                    if prehist == 3:
                         world.call(client, "getscript", oldn)
                         world.call(client, "listscripts")
                         world.call(client, "setactive", "")
